@@ -21,15 +21,18 @@ Definition open_prepare (s : state) (j : nat) (h : host) : Prop :=
 
 Definition done_i (s : state) (i : nat) : state := set_attempts s (mark_done i (attempts s)).
 
+Lemma submit_open s t : session_shut s = false -> submit s t = push_task s t.
+Proof. intros E. unfold submit. rewrite E. reflexivity. Qed.
+
 Lemma unprepared_step c s i h id tag pid qs ks : open_query s i h -> stmt_for c id = Some (pid, qs, ks) ->
   step c s (Resp i (RUnprepared id tag)) =
     if ks_mismatch c s ks then (fail_with (done_i s i) XKsMismatch, [])
-    else (push_task (done_i s i) (TReprepare h qs (if uses_keyspace_flag (pv c) then ks else None)), []).
+    else (submit (done_i s i) (TReprepare h qs (if uses_keyspace_flag (pv c) then ks else None)), []).
 Proof.
   intros O St. rewrite (step_resp_query c s i _ h O). cbn [set_result]. unfold unprepared, stmt_for in *.
   assert (G : forall ps, ps = (pid, qs, ks) -> unprep_go c (set_attempts s (mark_done i (attempts s))) h ps =
             if ks_mismatch c s ks then (fail_with (done_i s i) XKsMismatch, [])
-            else (push_task (done_i s i) (TReprepare h qs (if uses_keyspace_flag (pv c) then ks else None)), [])).
+            else (submit (done_i s i) (TReprepare h qs (if uses_keyspace_flag (pv c) then ks else None)), [])).
   { intros ps ->. unfold unprep_go, ks_mismatch, uses_ks, done_i. reflexivity. }
   destruct (fut_ps c) as [[[fid fqs] fks]|].
   - destruct (fid =? id) eqn:E; [|discriminate]. cbn [negb].
@@ -48,7 +51,7 @@ Proof.
 Qed.
 
 Lemma prepared_step c s j h r : open_prepare s j h ->
-  step c s (Resp j r) = (push_task (done_i s j) (TAfterPrepare h r), []).
+  step c s (Resp j r) = (submit (done_i s j) (TAfterPrepare h r), []).
 Proof. intros (a & N & D & P & <-). cbn [step]. rewrite N, D, P. reflexivity. Qed.
 
 Definition id_matches (c : config) (id : Z) : Prop :=
